@@ -670,6 +670,11 @@ def rename_plan(rng, plan, prob=0.7):
         for key in ('at', 'a', 'b', 'c'):
             if inv.get(key) is not None:
                 inv[key] = ren(inv[key])
+    for le in plan.get('late_events') or []:
+        le['dest'] = ren(le['dest'])
+        le['src'] = ren(le['src'])
+        for flt in le.get('filters', []):
+            flt[-1] = ren(flt[-1])
 
 
 def finish_spec(rng, spec):
